@@ -68,7 +68,7 @@ package revocation
 
 //@ func (*SignedAccumulator).UnmarshalVerify
 //@   property C10 C08 C11
-//@   requires s != nil && pk != nil && pk.ECDSA != nil
+//@   requires s != nil && pk != nil
 //@   ensures cached: old(s.Accumulator) != nil ==> err == nil && result0 == old(s.Accumulator)
 //@   ensures auth: old(s.Accumulator) == nil && err == nil ==> pk.Counter == s.PKCounter && signedok(ref(pk.ECDSA), bytes(s.Data)) && fresh(result0)
 //@   ensures set: err == nil ==> result0 != nil && s.Accumulator == result0
@@ -78,9 +78,52 @@ package revocation
 
 //@ func (*Update).Verify
 //@   property C10 C09
-//@   requires update != nil && pk != nil && pk.ECDSA != nil && update.SignedAccumulator != nil && evnonnil(update.Events)
+//@   requires update != nil && pk != nil && update.SignedAccumulator != nil && evnonnil(update.Events)
 //@   ensures chain: err == nil ==> result0 != nil && result0 == update.SignedAccumulator.Accumulator && chained(update.Events, result0)
 //@   ensures auth: err == nil && old(update.SignedAccumulator.Accumulator) == nil ==> pk.Counter == update.SignedAccumulator.PKCounter && signedok(ref(pk.ECDSA), bytes(update.SignedAccumulator.Data))
 //@   ensures cached: old(update.SignedAccumulator.Accumulator) != nil ==> result0 == old(update.SignedAccumulator.Accumulator)
 //@   modifies update.SignedAccumulator.Accumulator
 //@   mustfail canary: err != nil
+
+//@ # ---- non-revocation proof verification (C11, C08) ----
+//@ global Parameters.AttributeSize == 195 && Parameters.ChallengeLength == 256 && Parameters.ZkStat == 128 && Parameters.bTwoZk != nil && Parameters.twoZk != nil && Parameters.b != nil && bigOne != nil && val(bigOne) == 1
+//@ global len(secretNames) == 5 && secretNames[0] == "alpha" && secretNames[1] == "beta" && secretNames[2] == "delta" && secretNames[3] == "epsilon" && secretNames[4] == "zeta"
+
+//@ pred nrstruct(p) := p.Responses != nil && p.Responses["alpha"] != nil && p.Responses["beta"] != nil && p.Responses["delta"] != nil && p.Responses["epsilon"] != nil && p.Responses["zeta"] != nil && p.Cr != nil && p.Cu != nil && p.Nu != nil && p.Challenge != nil
+
+//@ func (*proofStructure).verifyProofStructure
+//@   property C11 C08
+//@   requires p != nil
+//@   ensures ok: result ==> nrstruct(p)
+//@   modifies nothing
+//@   loop 0 invariant 0 <= $i && $i <= 5 && forall j in 0..$i :: p.Responses[secretNames[j]] != nil
+//@   mustfail canary: !result
+
+//@ func (*proofStructure).commitmentsFromProof
+//@   property C11 C08
+//@   trusted string-keyed dynamic lookups through zkproof.BaseMerge / ProofMerge (interfaces, closures over names) are not yet within the verified subset; the precondition lists everything the callee chain dereferences
+//@   requires g != nil && g.N != nil && val(g.N) > 1 && challenge != nil && proof != nil && nrstruct(proof)
+//@   ensures shape: len(result) == len(list) + 6 && result[len(list)] == proof.Cr && result[len(list)+1] == proof.Cu && result[len(list)+2] == proof.Nu && fresh(result)
+//@   ensures nonnil: forall i in len(list)..len(list)+6 :: result[i] != nil
+//@   modifies nothing
+
+//@ func (*Proof).SetExpected
+//@   property C11 C08
+//@   requires p != nil && pk != nil && challenge != nil
+//@   ensures ok: err == nil ==> nrstruct(p) && p.SignedAccumulator != nil && p.SignedAccumulator.Accumulator != nil && p.Nu == p.SignedAccumulator.Accumulator.Nu && p.Challenge == challenge && p.Responses["alpha"] == response
+//@   ensures auth: err == nil && old(p.SignedAccumulator.Accumulator) == nil ==> pk.Counter == p.SignedAccumulator.PKCounter && signedok(ref(pk.ECDSA), bytes(p.SignedAccumulator.Data))
+//@   modifies p.Nu, p.Challenge, mapof(p.Responses), p.SignedAccumulator.Accumulator
+//@   mustfail canary: err != nil
+
+//@ func (*Proof).ChallengeContributions
+//@   property C11 C08
+//@   requires p != nil && key != nil && key.N != nil && val(key.N) > 1 && nrstruct(p)
+//@   ensures shape: len(result) == 6 && result[0] == p.Cr && result[1] == p.Cu && result[2] == p.Nu && fresh(result) && forall i in 0..6 :: result[i] != nil
+//@   modifies nothing
+
+//@ func (*Proof).VerifyWithChallenge
+//@   property C11 C08
+//@   requires p != nil && pk != nil && reconstructedChallenge != nil
+//@   ensures accept: result ==> nrstruct(p) && val(p.Responses["alpha"]) <= val(Parameters.bTwoZk) && p.SignedAccumulator != nil && p.acc != nil && p.acc == p.SignedAccumulator.Accumulator && p.acc.Nu != nil && val(p.Nu) == val(p.acc.Nu) && val(p.Challenge) == val(reconstructedChallenge)
+//@   modifies p.acc, p.SignedAccumulator.Accumulator
+//@   mustfail canary: !result
